@@ -412,6 +412,10 @@ var pairs = []pair{
 	{"P7", &P7{}, &P7v2{}, nil},
 	{"P8", &P8{}, &P8v2{}, []interface{}{&P8Tag{}}},
 	{"P9", &P9{}, &P9v2{}, nil},
+	{"P11", &P11{}, &P11v2{}, nil},
+	{"P12", &P12{}, &P12v2{}, []interface{}{&P12Author{}}},
+	{"P13", &P13{}, &P13v2{}, nil},
+	{"P14", &P14{}, &P14v2{}, nil},
 	{"P10", &P10Emp{}, &P10Empv2{}, []interface{}{&P10Co{}, &P10Dept{}, &P10Lang{}}},
 }
 
@@ -537,7 +541,9 @@ func migrateObserved(db *gorm.DB, rec *recdrv.Recorder, st *recState, model inte
 		o.Constraints = append(o.Constraints, chk.Name)
 	}
 	// ParseCheckConstraints returns a map: AutoMigrate visits it in map order; sort for a canonical form
-	sort.Strings(o.Constraints[len(fks):])
+	// AutoMigrate visits relations and check constraints in map order: constraint names (and the
+	// runs of consecutive CreateConstraint calls below) are compared in sorted order
+	sort.Strings(o.Constraints)
 	for _, idx := range sch.ParseIndexes() {
 		o.Indexes = append(o.Indexes, idx.Name)
 	}
@@ -564,6 +570,18 @@ func migrateObserved(db *gorm.DB, rec *recdrv.Recorder, st *recState, model inte
 	for _, l := range st.log {
 		if f := strings.Fields(l); len(f) > 1 && f[1] == o.Table {
 			o.API = append(o.API, l)
+		}
+	}
+	for i := 0; i < len(o.API); {
+		j := i
+		for j < len(o.API) && strings.HasPrefix(o.API[j], "CreateConstraint ") {
+			j++
+		}
+		if j > i {
+			sort.Strings(o.API[i:j])
+			i = j
+		} else {
+			i++
 		}
 	}
 	o.DDL = ddlOf(rec)
@@ -639,6 +657,17 @@ func runRound(in RoundIn) RoundObs {
 	o.Before = dump(db, o.First.Table, cols)
 	o.Extend = migrateObserved(db, rec, st, p.V2, p.Deps, &o.Errs)
 	o.After = dump(db, o.First.Table, cols)
+	// every belongs-to the struct declares has its foreign key in the migrated table (read from
+	// the struct by this harness, looked for in the stored table definition)
+	if in.Flags != "disablefk" && in.Flags != "ignorerel" && in.Flags != "both" {
+		var ddl string
+		db.Raw("SELECT sql FROM sqlite_master WHERE type = 'table' AND name = ?", o.First.Table).Row().Scan(&ddl)
+		for _, col := range expectedFKColumns(p.V2) {
+			if !strings.Contains(ddl, "FOREIGN KEY (`"+col+"`)") {
+				o.Errs = append(o.Errs, "the migrated table has no foreign key on "+col+" (belongs-to declared by the model)")
+			}
+		}
+	}
 	// the migrated table accepts and returns records of the new model
 	rec2 := fillRecord(r, p.V2, 1000)
 	if err := db.Omit(notMigrated(db, rec2)...).Create(rec2).Error; err != nil {
@@ -747,6 +776,66 @@ func zeroTimes(x interface{}) interface{} {
 	}
 	walk(c.Elem())
 	return c.Interface()
+}
+
+// expectedFKColumns: the foreign-key columns of the belongs-to relations a struct declares at top
+// level: a struct / pointer-to-struct field F whose type is a model (has an ID field) and whose
+// foreign key (foreignKey: tag, else F+"ID") is a field of the declaring struct; not when the
+// relation is excluded (-:migration, constraint:-) or mirrored by a has-one / has-many of the target
+// over the same key (gorm attaches that constraint to the other side).
+func expectedFKColumns(model interface{}) []string {
+	t := reflect.TypeOf(model).Elem()
+	ns := schema.NamingStrategy{}
+	var out []string
+	for i := 0; i < t.NumField(); i++ {
+		f := t.Field(i)
+		ft := f.Type
+		if ft.Kind() == reflect.Ptr {
+			ft = ft.Elem()
+		}
+		if ft.Kind() != reflect.Struct || ft.PkgPath() != "main" {
+			continue
+		}
+		if _, isModel := ft.FieldByName("ID"); !isModel {
+			continue
+		}
+		ts := schema.ParseTagSetting(f.Tag.Get("gorm"), ";")
+		if _, ok := ts["EMBEDDED"]; ok || ts["-"] != "" || ts["CONSTRAINT"] == "-" || ts["POLYMORPHIC"] != "" {
+			continue
+		}
+		fk := ts["FOREIGNKEY"]
+		if fk == "" {
+			fk = f.Name + "ID"
+		}
+		if _, own := t.FieldByName(fk); !own {
+			continue // has-one: the key lives in the other table
+		}
+		mirrored := false
+		for j := 0; j < ft.NumField(); j++ {
+			g := ft.Field(j)
+			gt := g.Type
+			for gt.Kind() == reflect.Ptr || gt.Kind() == reflect.Slice {
+				gt = gt.Elem()
+			}
+			if gt.Kind() == reflect.Struct && (gt == t || strings.TrimSuffix(gt.Name(), "v2") == strings.TrimSuffix(t.Name(), "v2")) && g.Type.Kind() != reflect.Ptr {
+				if schema.ParseTagSetting(g.Tag.Get("gorm"), ";")["FOREIGNKEY"] == fk {
+					mirrored = true
+				}
+			}
+		}
+		if !mirrored {
+			out = append(out, ns.ColumnName("", fk))
+		}
+	}
+	return out
+}
+
+// roundSig: known-finding signature of a round input.
+func roundSig(in RoundIn) string {
+	if in.Pair == "P14" {
+		return "numeric-default-in-noncanonical-spelling-realtered"
+	}
+	return ""
 }
 
 // notMigrated: names of the fields excluded from migration (their columns need not exist)
@@ -912,7 +1001,7 @@ func main() {
 			lib.ListOf(o.After, func(r []string) string { return lib.ListOf(r, lib.Str) }),
 			lib.Bool(o.NewOK), lib.Z(int64(len(o.Again2))), lib.Z(int64(len(o.Errs))))
 		out.Add(lib.Case{Term: term, JSON: map[string]interface{}{"input": map[string]interface{}{"kind": "round", "round": in}, "observed": o},
-			Kind: kind, Shape: fmt.Sprintf("round|%s|rows%d|%s", in.Pair, in.Rows, in.Flags), Nontriv: in.Rows > 0})
+			Sig: roundSig(in), Kind: kind, Shape: fmt.Sprintf("round|%s|rows%d|%s", in.Pair, in.Rows, in.Flags), Nontriv: in.Rows > 0})
 		out.Count("case", "round")
 		out.Count("round_pair", in.Pair)
 		out.Count("round_ddl_on_remigrate", fmt.Sprint(len(o.Again.DDL)))
@@ -976,6 +1065,9 @@ func main() {
 	r := lib.NewRng(a.Seed)
 	// round cases: every pair, with and without rows
 	for _, p := range pairs {
+		if p.Name == "P14" {
+			continue // known finding: replayed from the corpus only
+		}
 		for _, n := range []int{0, 3} {
 			addRound("main", RoundIn{Pair: p.Name, Rows: n, Seed: r.U64()})
 		}
@@ -1025,6 +1117,6 @@ func main() {
 		}
 		addDecide(kind, fi, ri)
 	}
-	out.Extra["rule"] = "cases = (a) decide: generated schema.Field (data type from a 24-word vocabulary with sizes/precisions/case/space variants, primary key, size, precision, not null, default value and DefaultValueInterface, time/bool/other, comment, unique, IgnoreMigration) x generated reported column type (type name related or unrelated, aliases, length/precision/nullable/default/comment/unique each with an ok flag) fed to the real Migrator.MigrateColumn with a recording migrator; (b) round: 10 hand-written model pairs (incl. composite / partial / unique / sorted index options placed on any member field, type: tags carrying their length, fields excluded from migration whose column does not exist, mixed-case column: tags and many2many over unique non-primary references with a link test), the relation pairs also under DisableForeignKeyConstraintWhenMigrating / IgnoreRelationshipsWhenMigrating / both (v1, v2 = v1 + fields/indexes/unique index/check constraints; sizes, not null, literal/bool/null defaults, times, bytes, embedded prefix, renamed column, json serializer, unique, check, composite key and index, foreign key) on real SQLite through the recording driver, with 0 and 3 rows; (c) reorder: ReorderModels on random subsets of 7 models with chain/diamond foreign keys. distinct = distinct input shapes; non-trivial = decision is alter or a unique change / rows present / more than one model"
+	out.Extra["rule"] = "cases = (a) decide: generated schema.Field (data type from a 24-word vocabulary with sizes/precisions/case/space variants, primary key, size, precision, not null, default value and DefaultValueInterface, time/bool/other, comment, unique, IgnoreMigration) x generated reported column type (type name related or unrelated, aliases, length/precision/nullable/default/comment/unique each with an ok flag) fed to the real Migrator.MigrateColumn with a recording migrator; (b) round: 13 hand-written model pairs (incl. composite / partial / unique / sorted index options placed on any member field, type: tags carrying their length, fields excluded from migration whose column does not exist, mixed-case column: tags and many2many over unique non-primary references with a link test), the relation pairs also under DisableForeignKeyConstraintWhenMigrating / IgnoreRelationshipsWhenMigrating / both (v1, v2 = v1 + fields/indexes/unique index/check constraints; sizes, not null, literal/bool/null defaults, times, bytes, embedded prefix, renamed column, json serializer, unique, check, composite key and index, foreign key) on real SQLite through the recording driver, with 0 and 3 rows; (c) reorder: ReorderModels on random subsets of 7 models with chain/diamond foreign keys. distinct = distinct input shapes; non-trivial = decision is alter or a unique change / rows present / more than one model"
 	lib.Must(out.Flush())
 }
